@@ -50,6 +50,8 @@ def main(argv=None):
     tier = a.tier if a.tier in ("quick", "thorough") else "quick"
     seed = int(os.environ.get("VERIF_SEED", "0") or 0)
     os.environ["VERIF_TIER_EFFECTIVE"] = tier
+    import logging
+    logging.disable(logging.CRITICAL)      # the library logs handled errors at ERROR level; keep the check's output readable
     t0 = time.time()
     if a.replay:
         with open(a.replay) as f:
